@@ -160,13 +160,14 @@ def s5(ctx, rep):
     P = ctx.P
     f = P.func("syne_tune.tuning_status.print_best_metric_found")
     ifs = [s for s in walk_shallow(f.node) if isinstance(s, ast.If) and parity.mode_test(s.test) is not None]
-    ok = len(ifs) == 1
-    if ok:
-        m = parity.mode_test(ifs[0].test)
-        amin, amax = (ifs[0].body, ifs[0].orelse) if m == "min" else (ifs[0].orelse, ifs[0].body)
-        ok = parity.arms_are_dual(amin, amax, odd=lambda s: True, oriented=True)
-        # the min arm sorts ascending on the per-trial minimum
-        ok = ok and "min_metrics" in U(amin[0]) and "key=lambda x: x[1]" in U(amin[-1])
+    # the function with the mode fixed to 'min' and to 'max' (an if/else on the mode, a conditional expression or a table keyed by
+    # the mode all come out as the selected code): the two are mirror images, and the 'min' one sorts the per-trial minima ascending
+    consts = dict(f.module.constants)
+    bmin, bmax = parity.specialise(f.node, "min", (), consts), parity.specialise(f.node, "max", (), consts)
+    tmin = U(ast.Module(body=bmin, type_ignores=[]))
+    ok = tmin != U(ast.Module(body=bmax, type_ignores=[])) and \
+        parity.dual_bodies(bmin, bmax, lambda a, b: parity.arms_are_dual(a, b, odd=lambda s: True, oriented=True))
+    ok = ok and ".min_metrics" in tmin and "key=lambda x: x[1]" in tmin and ".max_metrics" not in tmin
     rep.put(ok, "S5", "parity", "print_best_metric_found: per-trial optimum and sort direction are dual over the mode", f, ifs[0] if ifs else None, "",
             "the best trial is not selected by the per-trial minimum sorted ascending (min) / maximum sorted descending (max)")
     best = [x for x in walk_shallow(f.node) if isinstance(x, ast.Assign) and isinstance(x.targets[0], ast.Tuple) and "[0]" in U(x.value)]
